@@ -364,7 +364,7 @@ def afterCycle (own : String) (s : State) (e : Env) : State :=
 
 theorem cycle_run (own : String) (s : State) (e : Env) (hg : s.gone = false) (hp : s.pending = none) :
     run own s (cycleLabels e) = some (afterCycle own s e) := by
-  rcases e with ⟨c, m, oc, od, dr⟩
+  rcases e with ⟨c, m, oc, od, mc, dr⟩
   cases m <;>
     simp [cycleLabels, run, step, stepDecide, stepMerge, stepJson, hg, hp, afterCycle] <;>
     split <;> simp_all
@@ -385,6 +385,14 @@ theorem remove_bool : ∀ (matchDel matchDmn delDone dmnLive dmnForever marked c
     (matchDel || (matchDmn && !dmnForever)) = false →
     let d := decision (inputsB matchDel matchDmn delDone dmnLive dmnForever marked true cons memEmpty otherChanging otherDelays delReset)
     d.add = false ∧ d.removeUnneeded = true := by
+  decide
+
+theorem arm_bool : ∀ (matchDel matchDmn delDone dmnLive dmnForever marked blocked cons memEmpty otherChanging otherDelays delReset : Bool),
+    ((decision (inputsB matchDel matchDmn delDone dmnLive dmnForever marked blocked cons memEmpty otherChanging otherDelays delReset)).add = true →
+      (matchDel || (matchDmn && !dmnForever)) = true ∧ blocked = false ∧ marked = false) ∧
+    (((decision (inputsB matchDel matchDmn delDone dmnLive dmnForever marked blocked cons memEmpty otherChanging otherDelays delReset)).removeUnneeded
+      || (decision (inputsB matchDel matchDmn delDone dmnLive dmnForever marked blocked cons memEmpty otherChanging otherDelays delReset)).release) = true →
+      blocked = true ∧ ((matchDel || (matchDmn && !dmnForever)) = false ∨ marked = true)) := by
   decide
 
 /-- the fns of a decision without `add` and with a removal end in a removal -/
